@@ -38,7 +38,7 @@ def gen_cases(tier, seed):
         kind = KINDS[k % len(KINDS)]
         d = int(rng.integers(1, 3))
         n_out = 1 if kind.startswith("norm") else int(rng.integers(1, 4))
-        c = dict(kind=kind, d=d, n_out=n_out, seed=seed * 100000 + k, cost=1.0,
+        c = dict(kind=kind, d=d, n_out=n_out, seed=seed * 100000 + k, cost=1.0, x64=bool(k % 11 != 3),
                  B=int(rng.integers(1, 13)), w=float(np.round(rng.uniform(0.3, 3.0), 3)))
         if kind == "ic_ode":
             c.update(t0=float(np.round(rng.uniform(-1, 2), 3)), pbatch=bool(rng.integers(2)))
